@@ -73,5 +73,6 @@ def jobs(tier):
         add('split', dict(d=2, npm=3, sizes=[6, 3], allow_overlap=False,
                           unit=False), max_paths=60000)
         add('trim', dict(d=2, npm=3, sizes=[3, 4, 3, 3], cache=2))
-        add('sample', dict(d=2, npm=3, sizes=[3, 3, 3], n=2, cache=1))
+        add('sample', dict(d=2, npm=3, sizes=[3, 3, 3], n=2, cache=1), block=1,
+            max_paths=30000)
     return jobs
